@@ -149,7 +149,10 @@ for ci in range(NCFG):
              cfggen.setting(51, 3, bytes([1, 8, 2]) + bytes([6]) + (16).to_bytes(2, "big") + (6).to_bytes(4, "big") + b"ntdll\x00" +
                             (5).to_bytes(4, "big") + b"Func\x00" + b"\x00", 128),
              cfggen.setting(42, 3, (0x1000).to_bytes(4, "little") + (0x2000).to_bytes(4, "little") + bytes(8), 32),
-             cfggen.setting(46, 3, (2).to_bytes(4, "big") + b"ap" + (3).to_bytes(4, "big") + b"pre", 64)]
+             cfggen.setting(46, 3, (2).to_bytes(4, "big") + b"ap" + (3).to_bytes(4, "big") + b"pre", 64),
+             # index 36 in its deprecated reading (TYPE_SHORT: SETTING_INJECT_OPTIONS) or its current one (TYPE_PTR: watermark hash)
+             cfggen.setting(36, 1, 2) if ci % 2 == 0 else cfggen.setting(36, 3, b"hash" + bytes(4), 32),
+             cfggen.setting(16, 1, 0), cfggen.setting(19, 2, 0)]
     blk, desc = cfggen.config_block(rng, https=bool(ci % 2), extra=extra)
     fresh = lambda: BeaconConfig(blk)     # noqa: E731
     snap0 = snapshot(fresh())
